@@ -5,8 +5,10 @@ import (
 	"sort"
 	"strings"
 
+	"verif/internal/ref"
 	"verif/internal/run"
 	"verif/internal/spec"
+	"verif/internal/vproto"
 )
 
 // PathShape places the outputs of a directed topology.
@@ -139,14 +141,25 @@ func Topo(kind string, shape PathShape, goFunc bool, root string, n int) *spec.S
 		conn("P.out", "Q.in")
 	case "extra":
 		addSrc("src", n)
-		addProc("A", in, []string{"out"}, nil, map[string]string{"extra": "side.A.log,sub/deep/side2.A.log"}, spec.KCmd)
+		addProc("A", in, []string{"out"}, nil, nil, spec.KCmd)
 		addProc("B", in, []string{"out"}, nil, nil, pk)
 		conn("src.out", "A.in")
 		conn("A.out", "B.in")
-		s.MaxTasks = 1 // the extra files have fixed names: tasks of A must not overlap
 	}
 	sort.Strings(s.Dirs)
 	return s
+}
+
+// TopoBehav returns the per-task behaviours of a topology ("extra": every task of A creates
+// additional files with names of its own, one of them in a not yet existing sub-directory).
+func TopoBehav(kind string, exp *ref.Result) vproto.Behaviours {
+	bh := vproto.Behaviours{}
+	if kind == "extra" {
+		for i, t := range exp.ByProc["A"] {
+			bh[t.Key] = map[string]string{"extra": fmt.Sprintf("side%d.A.log,sub%d/deep/side2.A.log,zz%d.A.log", i, i, i)}
+		}
+	}
+	return bh
 }
 
 // CrashPoint names one instant at which the process group can be killed.
